@@ -249,6 +249,21 @@ func offsetLengthToStartEnd(offset, length uint64) (uint64, uint64, nfsv4.Nfssta
 		return 0, 0, nfsv4.NFS4ERR_INVAL
 	case math.MaxUint64:
 		// A length of all ones indicates end-of-file.
+		if offset == math.MaxUint64 {
+			// The range only consists of the byte at the
+			// maximum offset, which cannot be represented
+			// by a half-open (start, end) pair: the end
+			// would have to exceed the maximum 64-bit
+			// unsigned integer value. Unlike a range that
+			// overflows, this request is well-formed, so
+			// report that it lies outside the range of
+			// offsets supported by this server, instead of
+			// turning it into an empty range that conflicts
+			// with nothing.
+			//
+			// More details: RFC 7530, section 13.1.8.1.
+			return 0, 0, nfsv4.NFS4ERR_BAD_RANGE
+		}
 		return offset, math.MaxUint64, nfsv4.NFS4_OK
 	default:
 		if length > math.MaxUint64-offset {
